@@ -137,7 +137,7 @@ class C02(SMSpec):
         # externals restricted to none / engage(): the engagement history is symbolic, transitions come from expiry
         if tier == "quick":
             return ([mkjob(s, 6, 0, ext=False) for s in ("S2", "S6", "S7")] + [mkjob("S1", 5, 1, ext=False)]
-                    + [mkjob("S6", 5, 0, ext=False, rewrite=True, variant=1), mkjob("S2", 5, 1, ext=False, rewrite=True, variant=1)])
+                    + [mkjob("S6", 5, 0, ext=False, rewrite=True, variant=1), mkjob("S2", 4, 0, ext=False, rewrite=True, variant=1)])
         return ([mkjob(s, 8, 1, ext=False, variant=1, rewrite=True) for s in ("S2", "S6")]
                 + [mkjob("S7", 8, 0, ext=False, variant=2, rewrite=True), mkjob("S1", 7, 1, ext=False, variant=1),
                    mkjob("S3", 6, 1, ext=False, variant=5)])
@@ -173,21 +173,27 @@ class C13(SMSpec):
     outside = [
         "on_iteration() before the first on_enable() (raises AttributeError today; not covered by the statement)",
         "on_enable() while the machine is still running (no on_disable() in between)",
+        "done() followed by next_state() inside one state invocation and then on_enable() without an on_disable() in between (the framework always disables first)",
         "IEEE rounding of the clock arithmetic (reals are used)",
         "histories longer than K calls",
     ]
 
-    def mk(self, shape, K, budget, variant=0, nsn_depth=1):
+    def mk(self, shape, K, budget, variant=0, nsn_depth=1, done_next=False):
         j = mkjob(shape, K, budget, variant=variant, nsn_depth=nsn_depth)
         j["asm"] = True
         j["cfg"]["asm"] = True
+        if done_next:
+            j["cfg"]["done_then_next"] = True
+            j["cfg"]["enable_only_after_disable"] = True
         return j
 
     def jobs(self, tier):
         if tier == "quick":
-            return [self.mk("S1", 6, 2), self.mk("S2", 6, 1), self.mk("S3", 5, 2), self.mk("S7", 6, 0), self.mk("S8", 5, 1)]
+            return [self.mk("S1", 6, 2), self.mk("S2", 6, 1), self.mk("S3", 5, 2), self.mk("S7", 6, 0), self.mk("S8", 5, 1),
+                    self.mk("S1", 6, 1, variant=2, done_next=True)]
         return [self.mk("S1", 8, 2, 1), self.mk("S2", 8, 2, 2), self.mk("S3", 6, 3, 3, 2), self.mk("S7", 9, 1, 4),
-                self.mk("S8", 7, 2, 5), self.mk("S4", 6, 2, 1), self.mk("S6", 8, 1, 2)]
+                self.mk("S8", 7, 2, 5), self.mk("S4", 6, 2, 1), self.mk("S6", 8, 1, 2), self.mk("S1", 7, 2, 3, done_next=True),
+                self.mk("S3", 6, 2, 4, done_next=True)]
 
     def reach_required(self, tier):
         return ["disabled", "iteration-after-finish", "iteration-while-disabled", "first-iteration-after-enable",
